@@ -42,6 +42,13 @@ def is_pow2(fr):
     fr = abs(fr); n, d = fr.numerator, fr.denominator
     return (n & (n - 1)) == 0 and (d & (d - 1)) == 0
 
+def split_pow2(t):
+    """t == c * core with c a power-of-two literal (A8: such factors commute exactly with rounded *, / barring over/underflow)"""
+    if z3.is_app(t) and t.decl().kind() == z3.Z3_OP_MUL and t.num_args() == 2:
+        c = const_frac(t.arg(0))
+        if c is not None and is_pow2(c) and c != 1: return c, t.arg(1)
+    return Fraction(1), t
+
 def contains_uf(t, _cache={}):
     k = t.get_id()
     if k in _cache: return _cache[k]
@@ -160,6 +167,9 @@ class SymFP:
                         if ac >= 1: return s.mk_dy(d[0] * (sg * int(ac)), d[1])
                         return s.mk_dy(d[0] * sg, d[1] + (int(1 / ac).bit_length() - 1))
                 return z3.simplify(x * RV(c))
+        pa, a0 = split_pow2(a); pb, b0 = split_pow2(b)
+        if pa != 1 or pb != 1:
+            s.side.append(('pow2-scale', a, pa * pb)); return z3.simplify(s.fmul(a0, b0) * RV(pa * pb))
         f = s.uf('fmul', 2); t = f(a, b)
         if s.reg(t):
             na, nb = s.neg(a), s.neg(b)
@@ -219,6 +229,10 @@ class SymFP:
             s.side.append(('pow2-scale', a, 1 / cb)); return z3.simplify(a / RV(cb))
         if ca is not None and cb is not None and cb != 0 and Fraction(float(ca)) == ca and Fraction(float(cb)) == cb:
             return RV(Fraction(float(ca) / float(cb)))
+        pa, a0 = split_pow2(a); pb, b0 = split_pow2(b)
+        if ca is not None and ca != 0 and is_pow2(ca) and abs(ca) != 1: pa, a0 = abs(ca), RV(1 if ca > 0 else -1)
+        if pa != 1 or pb != 1:
+            s.side.append(('pow2-scale', a, pa / pb)); return z3.simplify(s.fdiv(a0, b0) * RV(pa / pb))
         f = s.uf('fdiv', 2); t = f(a, b)
         if s.reg(t):
             na, nb = s.neg(a), s.neg(b)
@@ -920,6 +934,16 @@ def call(E, nm, av, i, depth, caller):
         if a == 0: return bits
         if mm.group(1) == 'ctlz': return bits - a.bit_length()
         return (a & -a).bit_length() - 1
+    mm = re.match(r'@llvm\.(u|s)(mul|add|sub)\.with\.overflow\.i(\d+)', nm)
+    if mm:
+        bits = int(mm.group(3)); a, b = av
+        if isinstance(a, int) and isinstance(b, int):
+            if mm.group(1) == 'u': ua, ub = a & ((1 << bits) - 1), b & ((1 << bits) - 1)
+            else: ua, ub = E.sgn(a, bits), E.sgn(b, bits)
+            r = {'mul': ua * ub, 'add': ua + ub, 'sub': ua - ub}[mm.group(2)]
+            lo, hi = (0, (1 << bits) - 1) if mm.group(1) == 'u' else (-(1 << (bits - 1)), (1 << (bits - 1)) - 1)
+            return ('agg', [r & ((1 << bits) - 1), not (lo <= r <= hi)])
+        raise Unsupported('symbolic ' + nm)
     if nm in ('@_Znwm', '@_Znam', '@malloc'):
         return E.alloc(av[0] if isinstance(av[0], int) else None)
     if nm in ('@_ZdlPv', '@_ZdaPv', '@free'): return None
